@@ -39,7 +39,7 @@ VERSIONS = tuple(range(4, 15))
 FAIL_KINDS = ("none", "none", "error", "rstack", "lost", "eof", "silent")
 PROBES = ["soak.epochs", "soak.reconnect_other_version", "soak.fail.error", "soak.fail.rstack", "soak.fail.lost", "soak.fail.eof", "soak.fail.silent", "soak.fail.none",
           "soak.send.success", "soak.send.failure", "soak.send.never", "soak.send.cut_by_failure", "soak.incoming", "soak.join", "soak.leave", "soak.mc_subscribe",
-          "soak.mc_unsubscribe", "soak.keepalives", "soak.faulty_line", "soak.start.zigpy", "soak.start.zigpy-fresh", "soak.started_by_zigpy_initialize", "soak.startup_failed_by_command_queued_at_reset", "soak.reported", "soak.sends_in_progress_at_failure", "soak.exception_escaped_after_failure"]
+          "soak.mc_unsubscribe", "soak.keepalives", "soak.faulty_line", "soak.start.zigpy", "soak.start.zigpy-fresh", "soak.started_by_zigpy_initialize", "soak.startup_failed_by_command_queued_at_reset", "soak.failure_frame_destroyed_by_line", "soak.reported", "soak.sends_in_progress_at_failure", "soak.exception_escaped_after_failure"]
 
 
 def run(params, tape, detail=False):
@@ -349,7 +349,13 @@ def run(params, tape, detail=False):
             bound = 0.5 if k != "silent" else 45.0
             await asyncio.sleep(max(0.0, t_f + bound - loop.time()) + 0.1)
             rep = [x for x in rig.lost[lost0:] if x[0] >= t_f - 1e-9]
-            if not rep and not rig.lost[lost0:]:
+            # (faulty line: the NCP may die in the middle of one of its frames; the host then holds the head of that frame and the ERROR / RSTACK
+            # frame arrives glued to it - one corrupt frame, answered with a NAK. The failure frame never reached the host intact: a line fault on
+            # top of the failure, outside the statement - same rule as C10's `faulty` scenario)
+            destroyed = faults and k in ("error", "rstack") and not any(tt >= t_f - 1e-9 and fr[0] == k for (tt, fr) in rig.mon.rx_frames)
+            if destroyed:
+                probe("failure_frame_destroyed_by_line")
+            if not rep and not rig.lost[lost0:] and not destroyed:
                 viol.append(("C10.report", "soak-not-reported", f"soak epoch {e} (v{V}): {k} injected at t={t_f:.4f}; the application's connection_lost was not called within {bound}s"))
             else:
                 probe("reported")
